@@ -260,7 +260,12 @@ func (r *Reader) initFields() error {
 			r.m[ent.Name] = ent
 		}
 		if ent.Type == "reg" && ent.ChunkSize > 0 && ent.ChunkSize < ent.Size {
-			r.chunks[ent.Name] = make([]*TOCEntry, 0, ent.Size/ent.ChunkSize+1)
+			// Sizes come from the (untrusted) TOC: a file doesn't have more chunks than the TOC has entries.
+			n := ent.Size/ent.ChunkSize + 1
+			if max := int64(len(r.toc.Entries)); n > max {
+				n = max
+			}
+			r.chunks[ent.Name] = make([]*TOCEntry, 0, n)
 			r.chunks[ent.Name] = append(r.chunks[ent.Name], ent)
 		}
 		if ent.ChunkSize == 0 && ent.Size != 0 {
